@@ -19,6 +19,7 @@ package ipc
 
 import (
 	"go/constant"
+	"go/token"
 	"go/types"
 	"strings"
 	"sync"
@@ -272,6 +273,12 @@ func RegisterNewHelpers(p *Prog, pinned *Pinned) {
 				hasDefer = true
 			}
 		})
+		// … except when all it defers is the release of a mutex (the lock-scoped accessor
+		// `mu.Lock(); defer mu.Unlock(); return m[k]`): no rule other than the lockset
+		// reads unlock calls, and the lockset analyses every function in its own frame
+		if hasDefer && (onlyUnlockDefers(h) || selfContainedDefers(h)) {
+			hasDefer = false
+		}
 		if hasDefer {
 			for _, s := range info.sites {
 				if call, isCall := s.(*ssa.Call); isCall && !tailPosition(call) {
@@ -569,4 +576,197 @@ func ifaceDeclares(pkg *types.Package, name string) bool {
 		}
 	}
 	return false
+}
+
+// onlyUnlockDefers: every deferred call of h releases a sync.Mutex/RWMutex and h does not recover.
+func onlyUnlockDefers(h *ssa.Function) bool {
+	ok := true
+	EachInstrRaw(h, func(i ssa.Instruction) {
+		switch x := i.(type) {
+		case *ssa.Defer:
+			switch CalleeName(&x.Call) {
+			case "(*sync.Mutex).Unlock", "(*sync.RWMutex).Unlock", "(*sync.RWMutex).RUnlock":
+			default:
+				// … or the cancel of a context the helper derived itself (a time limit for
+				// the helper's own work). What must not outlive such a context is guarded by
+				// rules of its own: C02.X (no deferred cancel in a function that returns an
+				// *http.Response), C15.V (DialWebsocket uses its context for the dial only).
+				isCancel := !x.Call.IsInvoke()
+				if isCancel {
+					rs := rawRoots(x.Call.Value, 0)
+					isCancel = len(rs) > 0
+					for _, r := range rs {
+						cl, isCall := r.(*ssa.Call)
+						if !isCall {
+							if c, isC := r.(*ssa.Const); isC && c.Value == nil {
+								continue // var cancel context.CancelFunc (zero value before assignment)
+							}
+							isCancel = false
+							continue
+						}
+						switch CalleeName(cl.Common()) {
+						case "context.WithTimeout", "context.WithCancel", "context.WithDeadline":
+						default:
+							isCancel = false
+						}
+					}
+				}
+				if !isCancel {
+					ok = false
+				}
+			}
+		case *ssa.Call:
+			if b, isB := x.Call.Value.(*ssa.Builtin); isB && b.Name() == "recover" {
+				ok = false
+			}
+		}
+	})
+	return ok
+}
+
+// selfContainedDefers: every deferred call of h releases something h acquired itself
+// (its operands are rooted in values h computed, not in parameters, captured variables or
+// globals) and h's results are plain data (strings, numbers, booleans, slices of those,
+// error) that cannot carry the released object out — e.g. a list call that closes the body
+// of its own HTTP exchange and returns []string. When the helper returns matters to nobody
+// but the helper then, so its body can be read as part of the caller.
+func selfContainedDefers(h *ssa.Function) bool {
+	var plain func(t types.Type, d int) bool
+	plain = func(t types.Type, d int) bool {
+		if d > 3 {
+			return false
+		}
+		if t.String() == "error" {
+			return true
+		}
+		switch u := t.Underlying().(type) {
+		case *types.Basic:
+			return u.Kind() != types.UnsafePointer
+		case *types.Slice:
+			return plain(u.Elem(), d+1)
+		case *types.Array:
+			return plain(u.Elem(), d+1)
+		}
+		return false
+	}
+	res := h.Signature.Results()
+	for k := 0; k < res.Len(); k++ {
+		if !plain(res.At(k).Type(), 0) {
+			return false
+		}
+	}
+	ok := true
+	EachInstrRaw(h, func(i ssa.Instruction) {
+		switch x := i.(type) {
+		case *ssa.Defer:
+			var vals []ssa.Value
+			if x.Call.IsInvoke() {
+				vals = append(vals, x.Call.Value)
+			} else if _, isFn := x.Call.Value.(*ssa.Function); !isFn {
+				if _, isB := x.Call.Value.(*ssa.Builtin); !isB {
+					ok = false // deferred closure: not analysed
+					return
+				}
+			}
+			vals = append(vals, x.Call.Args...)
+			for _, v := range vals {
+				for _, r := range rawRoots(v, 0) {
+					switch r.(type) {
+					case *ssa.Parameter, *ssa.FreeVar, *ssa.Global:
+						ok = false
+					}
+				}
+			}
+		case *ssa.Call:
+			if b, isB := x.Call.Value.(*ssa.Builtin); isB && b.Name() == "recover" {
+				ok = false
+			}
+		}
+	})
+	return ok
+}
+
+// rawRoots: where a value comes from inside its own function (loads, field/index
+// selections, conversions and phis are looked through; calls, allocations, parameters,
+// captured variables and globals are roots). Does not use the helper registry.
+func rawRoots(v ssa.Value, d int) []ssa.Value {
+	if d > 12 {
+		return []ssa.Value{v}
+	}
+	switch x := v.(type) {
+	case *ssa.UnOp:
+		if x.Op == token.MUL {
+			if al, isA := x.X.(*ssa.Alloc); isA {
+				var out []ssa.Value
+				for _, u := range Refs(al) {
+					if st, isSt := u.(*ssa.Store); isSt && st.Addr == ssa.Value(al) {
+						out = append(out, rawRoots(st.Val, d+1)...)
+					}
+				}
+				if len(out) > 0 {
+					return out
+				}
+				return []ssa.Value{al}
+			}
+			return rawRoots(x.X, d+1)
+		}
+		return rawRoots(x.X, d+1)
+	case *ssa.FieldAddr:
+		return rawRoots(x.X, d+1)
+	case *ssa.Field:
+		return rawRoots(x.X, d+1)
+	case *ssa.IndexAddr:
+		return rawRoots(x.X, d+1)
+	case *ssa.Index:
+		return rawRoots(x.X, d+1)
+	case *ssa.Extract:
+		return rawRoots(x.Tuple, d+1)
+	case *ssa.ChangeType:
+		return rawRoots(x.X, d+1)
+	case *ssa.ChangeInterface:
+		return rawRoots(x.X, d+1)
+	case *ssa.MakeInterface:
+		return rawRoots(x.X, d+1)
+	case *ssa.Convert:
+		return rawRoots(x.X, d+1)
+	case *ssa.TypeAssert:
+		return rawRoots(x.X, d+1)
+	case *ssa.Slice:
+		return rawRoots(x.X, d+1)
+	case *ssa.Phi:
+		var out []ssa.Value
+		for _, e := range x.Edges {
+			out = append(out, rawRoots(e, d+1)...)
+		}
+		return out
+	}
+	return []ssa.Value{v}
+}
+
+// helperParamArgIn: the argument bound to parameter prm of a new helper at its call
+// site(s) inside top (the function a rule looks at); nil unless there is exactly one.
+func helperParamArgIn(prm *ssa.Parameter, top *ssa.Function) ssa.Value {
+	fn := prm.Parent()
+	info := helperOf(fn)
+	if info == nil {
+		return nil
+	}
+	var out []ssa.Value
+	for k, x := range fn.Params {
+		if x != prm {
+			continue
+		}
+		for _, s := range info.sites {
+			if s.Parent() != top && TopFunc(s.Parent()) != top {
+				continue
+			}
+			if args := s.Common().Args; k < len(args) {
+				out = append(out, args[k])
+			}
+		}
+	}
+	if len(out) == 1 {
+		return out[0]
+	}
+	return nil
 }
